@@ -122,6 +122,9 @@ type pathState struct {
 	trackW    bool
 	gcells    map[*value]bool
 	gmaps     map[*omap]bool
+	dom       map[*smt.Term]*[4]uint64 // over-approximate value set of each symbolic byte
+	dirty     bool
+	skipped   int
 	sched     *scheduler
 }
 
@@ -213,10 +216,102 @@ func (ps *pathState) sibling(d int) {
 	ps.forks++
 }
 
+// byteTable: for a condition over exactly one 8-bit variable, its truth table.
+type byteTable struct {
+	v   *smt.Term
+	tab [4]uint64
+}
+
+var byteTables sync.Map // term ID -> *byteTable (nil entry = not single-byte)
+
+func singleByteTable(c *smt.Term) *byteTable {
+	if e, ok := byteTables.Load(c.ID); ok {
+		bt, _ := e.(*byteTable)
+		return bt
+	}
+	vars := map[*smt.Term]bool{}
+	smt.Vars(c, vars, map[*smt.Term]bool{})
+	var bt *byteTable
+	if len(vars) == 1 {
+		for v := range vars {
+			if v.Width == 8 {
+				bt = &byteTable{v: v}
+				m := map[string]uint64{}
+				for x := 0; x < 256; x++ {
+					m[v.Name] = uint64(x)
+					if smt.Eval(c, m, map[*smt.Term]uint64{}) != 0 {
+						bt.tab[x/64] |= 1 << uint(x%64)
+					}
+				}
+			}
+		}
+	}
+	if bt == nil {
+		byteTables.Store(c.ID, (*byteTable)(nil))
+	} else {
+		byteTables.Store(c.ID, bt)
+	}
+	return bt
+}
+
+func (ps *pathState) domain(v *smt.Term) *[4]uint64 {
+	if d, ok := ps.dom[v]; ok {
+		return d
+	}
+	d := &[4]uint64{^uint64(0), ^uint64(0), ^uint64(0), ^uint64(0)}
+	ps.dom[v] = d
+	return d
+}
+
+// refine narrows the domain of the byte variable of a single-byte condition.
+func (ps *pathState) refine(c *smt.Term, val bool) {
+	if bt := singleByteTable(c); bt != nil {
+		d := ps.domain(bt.v)
+		for k := 0; k < 4; k++ {
+			if val {
+				d[k] &= bt.tab[k]
+			} else {
+				d[k] &^= bt.tab[k]
+			}
+		}
+	}
+}
+
+// forcedByDomain: 1 = c must be true, 0 = must be false, -1 = not decided by the byte domain.
+func (ps *pathState) forcedByDomain(c *smt.Term) int {
+	bt := singleByteTable(c)
+	if bt == nil {
+		return -1
+	}
+	d := ps.domain(bt.v)
+	anyT, anyF := false, false
+	for k := 0; k < 4; k++ {
+		if d[k]&bt.tab[k] != 0 {
+			anyT = true
+		}
+		if d[k]&^bt.tab[k] != 0 {
+			anyF = true
+		}
+	}
+	switch {
+	case anyT && !anyF:
+		return 1
+	case anyF && !anyT:
+		return 0
+	}
+	return -1
+}
+
 // decide returns the truth value of c on this path, forking when both are feasible.
 func (ps *pathState) decide(c *smt.Term) bool {
 	if c.IsConst() {
 		return c.IsTrue()
+	}
+	// conditions over one symbolic byte whose recorded value set already settles them
+	// are implied by the path condition: no decision, no solver call.
+	if f := ps.forcedByDomain(c); f >= 0 {
+		ps.skipped++
+		return f == 1
 	}
 	if ps.pos < len(ps.prefix) {
 		d := ps.prefix[ps.pos] != 0
@@ -226,6 +321,7 @@ func (ps *pathState) decide(c *smt.Term) bool {
 		} else {
 			ps.assertPC(smt.Not(c))
 		}
+		ps.refine(c, d)
 		ps.model = nil
 		return d
 	}
@@ -263,6 +359,7 @@ func (ps *pathState) decide(c *smt.Term) bool {
 		ps.record(0)
 		ps.assertPC(smt.Not(c))
 	}
+	ps.refine(c, cur)
 	return cur
 }
 
@@ -435,6 +532,7 @@ func (ps *pathState) assume(c value) {
 			panic(pathEnd{"assume-false", ""})
 		}
 	case sym:
+		ps.refine(c.t, true)
 		if ps.pos < len(ps.prefix) {
 			// still replaying: feasibility was established by the parent path
 			ps.assertPC(c.t)
@@ -569,6 +667,7 @@ func (e *Engine) Run(pkgPath, fnName string) (*RunResult, error) {
 				return
 			}
 			defer solver.Close()
+			var cache *initCache
 			for {
 				prefix, ok := wl.pop()
 				if !ok {
@@ -586,7 +685,7 @@ func (e *Engine) Run(pkgPath, fnName string) (*RunResult, error) {
 					wl.done()
 					return
 				}
-				pr, sibs, fns, intr := e.runPath(solver, fn, prefix)
+				pr, sibs, fns, intr := e.runPath(solver, fn, prefix, &cache)
 				wl.push(sibs...)
 				mu.Lock()
 				res.Paths++
@@ -645,11 +744,21 @@ func (e *Engine) Run(pkgPath, fnName string) (*RunResult, error) {
 	return res, firstErr
 }
 
+// initCache keeps a worker's post-initialisation package state between paths; it
+// is dropped as soon as a path stores into anything reachable from package variables.
+type initCache struct {
+	globals map[*ssa.Global]*value
+	inited  map[*ssa.Package]bool
+	gcells  map[*value]bool
+	gmaps   map[*omap]bool
+	steps   int
+}
+
 // runPath executes the harness once along the given decision prefix.
-func (e *Engine) runPath(solver *smt.Solver, fn *ssa.Function, prefix []int) (pr PathResult, siblings [][]int, fns map[string]bool, intr map[string]bool) {
+func (e *Engine) runPath(solver *smt.Solver, fn *ssa.Function, prefix []int, cache **initCache) (pr PathResult, siblings [][]int, fns map[string]bool, intr map[string]bool) {
 	solver.Reset()
 	solver.Push()
-	ps := &pathState{eng: e, solver: solver, prefix: prefix, nameCount: map[string]int{}, flags: map[string]value{}, store: map[string]value{}, harness: fn.Name()}
+	ps := &pathState{eng: e, solver: solver, prefix: prefix, nameCount: map[string]int{}, flags: map[string]value{}, store: map[string]value{}, harness: fn.Name(), dom: map[*smt.Term]*[4]uint64{}}
 	i := &interpreter{
 		prog:               e.Prog,
 		globals:            make(map[*ssa.Global]*value),
@@ -661,6 +770,7 @@ func (e *Engine) runPath(solver *smt.Solver, fn *ssa.Function, prefix []int) (pr
 		fnsSeen:            map[string]bool{},
 		intrSeen:           map[string]bool{},
 		inited:             map[*ssa.Package]bool{},
+		extGlobals:         map[*ssa.Global]*value{},
 	}
 	if e.Cfg.Trace {
 		i.mode |= EnableTracing
@@ -709,10 +819,20 @@ func (e *Engine) runPath(solver *smt.Solver, fn *ssa.Function, prefix []int) (pr
 				status, msg = "error", fmt.Sprintf("executor fault: %v at %s", r, ps.curPos())
 			}
 		}()
-		i.initGlobals()
-		i.ensureInit(fn.Pkg)
+		if c := *cache; c != nil {
+			i.globals, i.inited = c.globals, c.inited
+			ps.gcells, ps.gmaps = c.gcells, c.gmaps
+		} else {
+			i.ensureInit(fn.Pkg)
+			i.snapshotGlobals()
+			*cache = &initCache{globals: i.globals, inited: i.inited, gcells: ps.gcells, gmaps: ps.gmaps, steps: ps.steps}
+			ps.dirty = false
+		}
 		call(i, nil, token.NoPos, fn, nil)
 	}()
+	if ps.dirty || status == "error" {
+		*cache = nil
+	}
 	pr = PathResult{Decisions: ps.decisions, Status: status, Msg: msg, Reach: ps.reach, Violations: ps.viols, Steps: ps.steps, Forks: ps.forks, Notes: ps.notes}
 	if status == "ok" && len(ps.inputs) > 0 {
 		if ps.model == nil {
